@@ -33,6 +33,10 @@ def run(ctx):
     ctx.rule("R10.h", "an asynchronous reference is always evaluated: in _resolve_ref the scheduling of _async_ref depends on nothing but the reference being asynchronous", floor=1)
     ctx.rule("R10.i", "every reference handed to the constructor is recorded in refs (otherwise a later plain assignment neither ends the link nor cancels the pending task)", floor=1)
     ctx.rule("R10.c", "in reactive.py every write of self._current_ after a suspension point is guarded by `self._current_task is task`, and the task is registered before the first suspension", floor=2)
+    ctx.rule("R10.m", "setter model: Parameter.__set__ interpreted abstractly on every combination (576) of route x constant/readonly x validation outcome x identity x reference mode x watchers x batching: "
+                      "a plain value overriding an existing link ends it (relink(None) is what cancels the pending task), except for the sync's own write", floor=1)
+    ctx.rule("R10.j", "the scope that marks the sync's own writes replaces the syncing set by a fresh one and restores the saved one: it never mutates in place the set object it saved "
+                      "(otherwise the marker outlives the scope and every later plain assignment looks like a sync write that must not cancel)", floor=1)
     ctx.not_decided += ["the asyncio scheduler's cancellation semantics (trusted: Task.cancel() raises at the await, so no later write happens)",
                         "the final value under every schedule (follows from R10.a-d; each violated obligation yields a concrete bad schedule)"]
 
@@ -237,3 +241,11 @@ def run(ctx):
             else:
                 ctx.fail("R10.c", g, w, "`%s` happens after a suspension point without the latest-wins guard `self._current_task is task`: "
                                         "a superseded evaluation overwrites the newer result (or wipes the newer evaluation's ownership token)" % w.text())
+
+    # ------------------------------------------------------------- R10.j
+    from checks.shared import syncing_set_replaced
+    syncing_set_replaced(ctx, "R10.j")
+
+    # model-level rule, run last
+    from checks import setter_model
+    setter_model.report(ctx, "C10", "R10.m")
